@@ -205,6 +205,73 @@ func RecScenarios(tier string) []*Scenario {
 		n++
 		out = append(out, buildRecNamed(fmt.Sprintf("%05d", n), nm.name, nm.under, nm.noRT))
 	}
+	// mutually recursive named non-struct types: type A op1(B); type B op2(A) (and 3-cycles in the thorough tier),
+	// as the method's own pair and as a struct field
+	type mop struct {
+		name string
+		mk   func(x *space.Ty) *space.Ty
+	}
+	mops := []mop{
+		{"slice", func(x *space.Ty) *space.Ty { return space.S(x) }},
+		{"mapval", func(x *space.Ty) *space.Ty { return space.M(tStr, x) }},
+		{"ptr", func(x *space.Ty) *space.Ty { return space.P(x) }},
+		{"array", func(x *space.Ty) *space.Ty { return space.A(2, x) }},
+		{"sliceptr", func(x *space.Ty) *space.Ty { return space.S(space.P(x)) }},
+	}
+	var cycles [][]mop
+	for _, a := range mops {
+		for _, b := range mops {
+			cycles = append(cycles, []mop{a, b})
+			if tier == "thorough" {
+				for _, c := range mops {
+					cycles = append(cycles, []mop{a, b, c})
+				}
+			}
+		}
+	}
+	for _, cyc := range cycles {
+		allArr, allPtr := true, true
+		var names []string
+		for _, o := range cyc {
+			allArr = allArr && o.name == "array"
+			allPtr = allPtr && o.name == "ptr"
+			names = append(names, o.name)
+		}
+		if allArr {
+			continue // infinite size: not a Go type
+		}
+		for _, pos := range []string{"top", "field"} {
+			n++
+			id := fmt.Sprintf("%05d", n)
+			mk := func(pkg string) []*space.Decl {
+				ds := make([]*space.Decl, len(cyc))
+				for i := range cyc {
+					ds[i] = &space.Decl{Pkg: pkg, Name: fmt.Sprintf("M%d%s", i, id)}
+				}
+				for i, o := range cyc {
+					ds[i].Under = o.mk(space.N(ds[(i+1)%len(cyc)]))
+				}
+				return ds
+			}
+			in, outD := mk("in"), mk("out")
+			sc := &Scenario{ID: "Y" + id, PropGen: "C03", PropVal: "C02", Test: "Convert", Funcs: map[string]string{}, Mode: "value,nomutate", NoRuntime: allPtr,
+				Desc: map[string]any{"class": "mutually-recursive-named:" + strings.Join(names, ">") + "@" + pos}, Unspec: "mutually recursive named non-struct types"}
+			sc.Decls = append(append([]*space.Decl{}, in...), outD...)
+			src, dst := space.N(in[0]), space.N(outD[0])
+			if pos == "field" {
+				hs := &space.Decl{Pkg: "in", Name: "H" + id, Under: space.St(f("A", tInt), f("R", src))}
+				ht := &space.Decl{Pkg: "out", Name: "H" + id, Under: space.St(f("A", tInt), f("R", dst))}
+				sc.Decls = append(sc.Decls, hs, ht)
+				src, dst = space.N(hs), space.N(ht)
+			}
+			conv := &model.Converter{OutPkg: "conv/generated", LitPkg: "conv"}
+			sc.Conv = conv
+			mm := &model.Method{Name: "Convert", Src: src, Dst: dst, Fields: map[string]*model.FieldCfg{}}
+			conv.Methods = []*model.Method{mm}
+			sc.Methods = []*ScMethod{{Name: "Convert", Params: "source " + src.Go("conv"), Result: dst.Go("conv"), M: mm}}
+			out = append(out, sc)
+		}
+	}
 	// generic types: instantiations of a generic recursive tree and of generic wrappers around each other
 	for _, arg := range []func(u *space.Universe) *space.Ty{
 		func(u *space.Universe) *space.Ty { return tInt },
@@ -418,7 +485,7 @@ func RunC13(run *ev.Run) {
 		c := RunWorkers(run, fam, []string{tier, "", "gen-only"}, "")
 		total["evaluations"] += c["evaluations"]
 	}
-	for _, wk := range []string{"rec", "dir"} {
+	for _, wk := range []string{"rec", "dir", "shape"} {
 		skip := ""
 		for round := 0; round < 12; round++ {
 			counts := map[string]int{}
@@ -471,13 +538,15 @@ func RunC13(run *ev.Run) {
 			run.OutcomeN(k, v)
 		}
 	}
+	total["evaluations"] += RunDeclShapes(run)
 	run.Cov["recursive_and_directive_evaluations"] = total["evaluations"]
 	run.Cov["evaluations"] = run.Cov["evaluations"].(int) + total["evaluations"]
 	run.Cov["states"] = run.Cov["states"].(int) + total["evaluations"]
 	run.Cov["directive_keys"] = len(dirKeys)
 	run.Cov["directive_values"] = len(dirValues(map[bool]int{false: 2, true: 3}[tier == "thorough"]))
 	run.Cov["recursive_graph_scenarios"] = len(RecScenarios(tier))
-	run.Cov["rule"] = "(i) every ordered type pair of the full Go leaf alphabet (depth-bounded) under every setting vector; (i-b) every reachable struct graph with <=2 (thorough 3) named nodes and <=2 fields per node whose edges go through pointer, slice, map value or direct embedding, plus self-referential named slice/map/pointer/func/chan types; (ii) every directive key (known, unknown, empty) x every value string of <=2 (thorough 3) tokens of the token menu at CLI, converter and method level of four base declarations (struct, update, enum, variables); each generation runs under recover() in a worker subprocess with watchdog: a panic, a worker crash (stack overflow) or a hang is a violation; failing runs must carry a non-empty diagnostic"
+	run.Cov["method_shapes"] = len(methodShapes(tier))
+	run.Cov["rule"] = "(i) every ordered type pair of the full Go leaf alphabet (depth-bounded) under every setting vector; (i-b) every reachable struct graph with <=2 (thorough 3) named nodes and <=2 fields per node whose edges go through pointer, slice, map value or direct embedding, plus self-referential and mutually recursive named slice/map/pointer/array/func/chan types; (i-c) every ordered pair of the full depth-1 alphabet as a struct field under every other method shape (update, update with zero-value settings, default, default:update, error result with wrapErrors; with skipCopySameType / useZeroValueOnPointerInconsistency variants); (i-d) every declaration shape of a converter / variables block (generic, embedded, type-set, alias, unexported, variadic, unnamed/blank/colliding parameter names, grouped, function-typed variables with and without initial value, markers on wrong kinds) x output settings through the real CLI; (ii) every directive key (known, unknown, empty) x every value string of <=2 (thorough 3) tokens of the token menu at CLI, converter and method level of four base declarations (struct, update, enum, variables); each generation runs under recover() in a worker subprocess with watchdog: a panic, a worker crash (stack overflow) or a hang is a violation; failing runs must carry a non-empty diagnostic"
 }
 
 func crashSite(stderr string) string {
@@ -509,4 +578,116 @@ func parseSkip(s string) map[string]bool {
 		}
 	}
 	return out
+}
+
+// ---- C13 (i-c): every type pair as a struct field under the other method shapes ----
+
+type methodShape struct {
+	name  string
+	iface string // "U" update interface, "D" default interface, "E" error-returning interface
+	lines []string
+	conv  []string
+}
+
+func methodShapes(tier string) []methodShape {
+	out := []methodShape{
+		{"update", "U", []string{"update target"}, nil},
+		{"update+zero", "U", []string{"update target", "update:ignoreZeroValueField"}, nil},
+		{"update+zero+skipcopy", "U", []string{"update target", "update:ignoreZeroValueField"}, []string{"skipCopySameType"}},
+		{"default", "D", []string{"default $NEW"}, nil},
+		{"default+update", "D", []string{"default $NEW", "default:update"}, []string{"useZeroValueOnPointerInconsistency"}},
+		{"default+update+zero", "D", []string{"default $NEW", "default:update", "update:ignoreZeroValueField"}, nil},
+		{"error+wrap", "E", nil, []string{"wrapErrors", "skipCopySameType"}},
+	}
+	if tier == "thorough" {
+		out = append(out,
+			methodShape{"update+zero:basic", "U", []string{"update target", "update:ignoreZeroValueField:basic"}, nil},
+			methodShape{"update+zero:struct", "U", []string{"update target", "update:ignoreZeroValueField:struct"}, nil},
+			methodShape{"update+zero:nillable", "U", []string{"update target", "update:ignoreZeroValueField:nillable"}, nil},
+			methodShape{"update+zero+ptr", "U", []string{"update target", "update:ignoreZeroValueField"}, []string{"useZeroValueOnPointerInconsistency", "useUnderlyingTypeMethods"}},
+			methodShape{"update+skipcopy", "U", []string{"update target"}, []string{"skipCopySameType", "ignoreUnexported"}},
+			methodShape{"default+skipcopy", "D", []string{"default $NEW"}, []string{"skipCopySameType"}},
+			methodShape{"default+update+zero+skipcopy", "D", []string{"default $NEW", "default:update", "update:ignoreZeroValueField"}, []string{"skipCopySameType", "enum:unknown @ignore"}},
+		)
+	}
+	return out
+}
+
+// ShapeWorker: pairs (S,T) of the full depth-1 alphabet as field F of SW{F S; A int} → TW{F T; A int}, each under every
+// method shape. Only crashes matter here (values are the business of C10/C11).
+func ShapeWorker(w *pool.W, shard, n int, tier string, skip map[string]bool) error {
+	u := space.StdUniverse()
+	types := space.Types(u.Leaves(true), 1)
+	mod, err := emit.NewModule("shapes")
+	if err != nil {
+		return err
+	}
+	defer mod.Remove()
+	mod.AddUniverse(u)
+	var b strings.Builder
+	b.WriteString(convHeader)
+	type pr struct {
+		idx  int
+		s, t *space.Ty
+	}
+	var mine []pr
+	idx := 0
+	for _, s := range types {
+		for _, t := range types {
+			idx++
+			if idx%n != shard {
+				continue
+			}
+			mine = append(mine, pr{idx, s, t})
+			id := fmt.Sprintf("%07d", idx)
+			fmt.Fprintf(&b, "type SW%s struct {\n\tF %s\n\tA int\n}\ntype TW%s struct {\n\tF %s\n\tA int\n}\nfunc NewTW%s() *TW%s { return &TW%s{} }\n", id, s.Go("conv"), id, t.Go("conv"), id, id, id)
+			fmt.Fprintf(&b, "// goverter:converter\ntype U%s interface {\n\tConvert(source SW%s, target *TW%s)\n}\n", id, id, id)
+			fmt.Fprintf(&b, "// goverter:converter\ntype D%s interface {\n\tConvert(source *SW%s) *TW%s\n}\n", id, id, id)
+			fmt.Fprintf(&b, "// goverter:converter\ntype E%s interface {\n\tConvert(source SW%s) (TW%s, error)\n}\n\n", id, id, id)
+		}
+	}
+	mod.Add("conv/conv.go", b.String())
+	if err := mod.Write(); err != nil {
+		return err
+	}
+	sess, err := drive.Open(mod.Dir, []string{"./conv"}, nil)
+	if err != nil {
+		return fmt.Errorf("open session: %w", err)
+	}
+	shapes := methodShapes(tier)
+	for _, p := range mine {
+		id := fmt.Sprintf("%07d", p.idx)
+		for _, sh := range shapes {
+			caseID := "shape" + id + sh.name
+			if skip[caseID] {
+				continue
+			}
+			rc, ok := sess.Raws[sh.iface+id]
+			if !ok {
+				return fmt.Errorf("converter %s%s not found", sh.iface, id)
+			}
+			var lines []string
+			for _, l := range sh.lines {
+				lines = append(lines, strings.ReplaceAll(l, "$NEW", "NewTW"+id))
+			}
+			w.Begin(fmt.Sprintf("%s class:shape=%s %s -> %s", caseID, sh.name, p.s, p.t))
+			out := sess.Gen(rc, &drive.Inject{Converter: sh.conv, Method: map[string][]string{"Convert": lines}})
+			w.Count("evaluations")
+			w.Count("out:shape/" + out.Kind.String())
+			cs := map[string]any{"kind": "shape", "shape": sh.name, "source_field": p.s.Go("conv"), "target_field": p.t.Go("conv"), "converter_lines": sh.conv, "method_lines": lines}
+			switch out.Kind {
+			case drive.Panic:
+				w.Viol(ev.Violation{Property: "C13", Site: panicSite(out.Diag), Symptom: "panic",
+					Detail: fmt.Sprintf("struct{F %s; A int} → struct{F %s; A int}, method shape %s (%v %v)\n%s", p.s, p.t, sh.name, sh.conv, lines, out.Diag), Case: cs})
+			case drive.Error:
+				if strings.TrimSpace(out.Diag) == "" {
+					w.Viol(ev.Violation{Property: "C13", Site: "empty-diagnostic", Symptom: "empty-diagnostic", Detail: caseID, Case: cs})
+				}
+			}
+			if p.idx%5003 == 0 {
+				w.Sample(map[string]any{"shape": sh.name, "source_field": p.s.Go("conv"), "target_field": p.t.Go("conv"), "outcome": out.Kind.String()})
+			}
+		}
+	}
+	return nil
 }
